@@ -132,6 +132,6 @@ Print Assumptions c20_source_tables.
 From GB Require Import Proofs.TrieParsedProofs.
 Theorem c20_trie_sound_parsed : forall texts ts p i t,
   Forall2 (fun s t => st_parse s = Some t) texts ts ->
-  In i (find false (build ts) (c_slash :: p)) -> nth_error ts i = Some t -> template_matches t (c_slash :: p) = true.
+  In i (Model.Trie.find false (Model.Trie.build ts) (c_slash :: p)) -> nth_error ts i = Some t -> template_matches t (c_slash :: p) = true.
 Proof. exact trie_sound_parsed. Qed.
 Print Assumptions c20_trie_sound_parsed.
